@@ -219,7 +219,12 @@ class YPPrologVisitor(prologVisitor):
         for i,x in enumerate(ctx.clauseordirective()):
             r = self.visitClauseordirective(ctx.clauseordirective(i))
             if isinstance(r, Clause):
-                clauses.setdefault((r.head.name(),len(r.head.args())),[]).append(r)
+                # the predicate name becomes part of a Python function name
+                name = r.head.name()
+                if not re.fullmatch(r'[A-Za-z_][A-Za-z0-9_]*', name):
+                    raise CompilerError(getattr(self.context, 'current_source_file', ''), ctx.clauseordirective(i),
+                        f"{name!r} cannot be used as the predicate name of a clause head")
+                clauses.setdefault((name,len(r.head.args())),[]).append(r)
             else:
                 # TODO: handle directives
                 pass
